@@ -36,6 +36,7 @@ class World(object):
         self.workbufs = []   # chunks handed to writers by the operation that just finished
         self.held = Held()   # results the caller still holds: verified unchanged, then edited, before the next operation
         self.nspell = 0
+        self.elsewhere = None   # the directory the caller has changed to (None: the scratch disk itself)
         self.reused = {}     # (caller, kind) -> long-lived SFile / Recfile object re-open()ed per file
         self.cur = 0         # caller of the operation being executed
         self.nreuse = 0
@@ -71,9 +72,9 @@ class World(object):
             self.nspell += 1
             form = ("abs", "rel", "var", "home", "rel2")[(self.nspell * 7 + len(p)) % 5]
         if form == "rel":
-            return p
+            return p if self.elsewhere is None else os.path.relpath(self.path(p), os.getcwd())
         if form == "rel2":
-            return "./" + p
+            return "./" + (p if self.elsewhere is None else os.path.relpath(self.path(p), os.getcwd()))
         if form == "var":
             return "$ESUTIL_SIMDISK/" + p
         if form == "home":
@@ -84,7 +85,20 @@ class World(object):
         key = sdigest([rec, form, delim])
         t = self.tabcache.get(key)
         if t is None:
-            t = self.tabcache[key] = T.make_table(rec["fields"], rec["nrows"], rec["dseed"], form, delim)
+            if rec.get("rawstr"):
+                # (C15 only: what is judged is the caller's memory, not the file) byte strings with any content --
+                # line breaks, NULs, delimiter characters -- even when the table goes to a text file
+                f2 = [dict(f, p="wide") if f["t"][0] == "S" else f for f in rec["fields"]]
+                t = T.make_table(f2, rec["nrows"], rec["dseed"], "bin", delim)
+                for f in f2:
+                    if f["t"][0] == "S" and t.shape[0]:
+                        col = t[f["n"]]
+                        raw = np.array(col).view("u1").reshape(-1)
+                        raw[3::7] = 0x0A
+                        t[f["n"]] = raw.view(col.dtype).reshape(col.shape)
+            else:
+                t = T.make_table(rec["fields"], rec["nrows"], rec["dseed"], form, delim)
+            self.tabcache[key] = t
         return t
 
     def raw(self, p):
@@ -581,6 +595,12 @@ def _full_read(w, m, p, entry, mods):
         if entry == "SFile.getitem":
             with sfile.SFile(path) as sf:
                 return sf[:], None
+        if entry == "SFile.printed":
+            # the class docstring's own example: look at the object first (print(sf)), then read
+            with sfile.SFile(path) as sf:
+                repr(sf)
+                str(sf)
+                return sf.read(header=True)
         if entry == "SFile.nocontext":
             sf = sfile.SFile(path, "r")
             try:
@@ -796,6 +816,8 @@ def op_write(w, op, mods):
         raise Skip("no such writer")
     p = h["path"]
     m = w.files[p]
+    if m is None:
+        raise Skip("nothing is known about the file any more")
     delim = m["delim"]
     tab = w.table(op["tab"], "txt" if delim else "bin", delim)
     ok_expected = _compatible(m, tab)
@@ -808,6 +830,22 @@ def op_write(w, op, mods):
     arg, guard = _handed(w, op, tab), None
     if w.prop == "C15":
         arg, guard = present.make(tab, op.get("present"))
+    if op.get("badhdr") and h["kind"] == "SFile" and ok_expected and tab.shape[0] > 0 and m.get("pending") and h["writes"] == 0:
+        # (only the FIRST write of a new file looks at header=; later writes ignore it)
+        # the caller first passes a header= argument that cannot be used (a list of pairs instead of a dict, a dict
+        # holding something that cannot be copied) -- rejected -- and then repeats the write correctly
+        bad = [("date", "2007"), ("n", 3)] if op["badhdr"] == "pairs" else {"date": "2007", "gen": (x for x in ())}
+        try:
+            h["obj"].write(arg, header=bad)
+            refused = False
+        except Exception:
+            refused = True
+        if not refused:
+            w.files[p] = None
+            run.event(op.get("c", 0), "write_badhdr", p, "accepted")
+            raise Skip("the unusable header argument was accepted: nothing is known about the file any more")
+        run.fault("write_rejected_for_its_header_argument_then_repeated")
+        run.event(op.get("c", 0), "write_badhdr", p, "rejected")
     try:
         if h["kind"] == "SFile":
             h["obj"].write(arg, header=hdr)
@@ -1538,6 +1576,34 @@ def op_hread_bad(w, op, mods):
                      % (rows, n, len(got) if hasattr(got, "__len__") else -1))
 
 
-OPS = {"stale": op_stale, "create": op_create, "read": op_read, "header": op_header, "open_w": op_open_w,
+_DECOY = (b"SIZE =                    2\n{'_DTYPE': [('decoy', '<i4')], '_VERSION': '1.0'}\nEND\n\n" + b"\x07\x00\x00\x00\x08\x00\x00\x00")
+
+
+def op_chdir(w, op, mods):
+    """the program changes its working directory (and back) while files and objects opened under RELATIVE names are
+    alive: an open object refers to the file it was opened on, not to whatever the name would mean now.  The other
+    directory holds files of the same names (small valid sfiles with other contents)."""
+    run = w.run
+    if w.cfg.get("pathform", "abs") != "mixed":
+        raise Skip("names are not relative in this run")
+    if w.elsewhere is None:
+        d = os.path.join(w.root, "elsewhere")
+        os.makedirs(d, exist_ok=True)
+        for p in list(w.files.keys()) + [h["path"] for h in w.handles.values()]:
+            try:
+                with open(os.path.join(d, p), "wb") as fh:
+                    fh.write(_DECOY)
+            except OSError:
+                pass
+        os.chdir(d)
+        w.elsewhere = d
+    else:
+        os.chdir(w.root)
+        w.elsewhere = None
+    run.fault("working_directory_changed_while_objects_were_open" if w.handles or w.reused else "working_directory_changed")
+    run.event(op.get("c", 0), "chdir", "elsewhere" if w.elsewhere else "back", "ok")
+
+
+OPS = {"chdir": op_chdir, "stale": op_stale, "create": op_create, "read": op_read, "header": op_header, "open_w": op_open_w,
        "write": op_write, "close": op_close, "append": op_append, "open_r": op_open_r,
        "reopen_obj": op_reopen_obj, "hread": op_hread, "hread_bad": op_hread_bad, "write_ro": op_write_ro}
